@@ -52,6 +52,8 @@ Inductive action :=
 
 Definition exit_code (a : action) : Z :=
   match a with AFatal _ c => c | AUncaught _ => 1 | AReturn _ => 0 end.
+(* what the parent process observes: os._exit / sys.exit keep the low 8 bits of the code *)
+Definition process_status (a : action) : Z := exit_code a mod 256.
 Definition rendered_of (a : action) : option render_req :=
   match a with AReturn r => r | _ => None end.
 
